@@ -1,4 +1,5 @@
 #include "fmt_binary.hpp"
+#include "../core/binseeds.hpp"
 #include <jsoncons_ext/ubjson/ubjson.hpp>
 using namespace jsoncons;
 namespace iosim {
@@ -18,20 +19,7 @@ struct UbjsonB {
     static void encode(const ojson& j, std::vector<uint8_t>& out, uint64_t) { ubjson::encode_ubjson(j, out); }
     static void encode_stream(const ojson& j, std::ostream& os, uint64_t) { ubjson::encode_ubjson(j, os); }
     static Outcome encoder_nest(int ckind, size_t depth, int limit) { auto opt = ubjson::ubjson_options{}.max_nesting_depth(limit); return encoder_nest_impl<ubjson::ubjson_bytes_encoder, std::vector<uint8_t>, ubjson::ubjson_options>(ckind, depth, opt, false); }
-    static const char* const* seed_hex() {
-        // Z T F N  i U I l L d D  C S H  [ ] { }  $ #
-        static const char* const s[] = {
-            "5a", "54", "46", "4e", "6980", "55ff", "498000", "6c80000000", "4c8000000000000000", "4c7fffffffffffffff", "643fc00000", "647f800000", "443ff8000000000000", "447ff8000000000000", "4361", "43ff",
-            "53690361 6263", "535503616263", "5349000361 6263", "536c00000003616263", "534c0000000000000003616263", "536900", "5369 02c3a9", "536902c328", "5369ff61", "48690331 3233", "486904 312e3565", "486903 616263", "4869012d",
-            "5b5d", "5b690169025d", "5b5b5b5d5d5d", "5b4e69014e5d", "7b7d", "7b690161 6901 7d", "7b6901615b5d690162 7b7d7d", "7b 6901 61 69 01", "5b6901", "7b690161", "5d", "7d", "5b7d", "7b5d",
-            "5b23690369016902 6903", "5b236900", "5b2469236903 010203", "5b245523 6903 010203", "5b24492369020001 0002", "5b246c23690100000001", "5b244c2369010000000000000001", "5b24642369023fc0000040000000", "5b2444236901 3ff8000000000000", "5b24432369036162 63", "5b245423 6903", "5b245a23 6903", "5b244e236903",
-            "5b2453236902 690161 690162", "5b245b236902 5d5d", "5b24 7b 2369027d7d", "5b2469", "5b246923", "5b24692369", "5b2369", "5b24 6923 6c ffffffff", "5b24 5a23 4c 7fffffffffffffff",
-            "7b236902 690161 6901 690162 6902", "7b2469236902 690161 01 690162 02", "7b245a236902 690161 690162", "7b2453236901 690161 690162", "7b2369ff", "7b24692369ff",
-            "5b234cffffffffffffffff", "5b236c7fffffff", "5b24 69 23 6c 7fffffff 01", "5b2444236c 7fffffff", "536c7fffffff6161", "534c7fffffffffffffff", "486c7fffffff31", "7b236c7fffffff", "7b24 69 23 6c 7fffffff", "5b24 55 23 4c 0000000100000000", "5b 23 6c 00989681", "5b 24 5a 23 6c 00989681",
-            "5b5b5b5b5b5b5b5b5b5b5b5b5b5b5b5b5b5b5b5b5b5b5b5b", "7b690161 7b690161 7b690161 7b690161 7b7d7d7d7d7d", "5b 53 69 01 61 43 62 48 69 01 31 5d",
-            nullptr };
-        return s;
-    }
+    static const char* const* seed_hex() { return sim::binseeds::ubjson(); }
 };
 const FormatApi& ubjson_api() { return BinaryFmt<UbjsonB>::api(); }
 }
